@@ -107,7 +107,7 @@ def units(chk: Check) -> List[Tuple[str, FuncInfo, Any, Set[str], str]]:
     op_param: Dict[str, Tuple[str, List[str]]] = {}
     try:
         from .c12 import common_ops
-        for fm in common.assignment_forms(chk):
+        for fm in common.assignment_forms(chk, strict=False):
             if fm['target'] == 'fn' and fm['compound'] and fm['op_idx'] is not None:
                 params = [a.arg for a in F.func(fm['fn']).node.args.args]
                 op_param[fm['fn']] = (params[fm['op_idx']], common_ops(chk, fm))
